@@ -245,14 +245,18 @@ def run(ctx):
     groups = [scen[i:i + 30] for i in range(0, len(scen), 30)]
     files = []
     sysdrift = 0
+    hung = False
     for gi, grp in enumerate(groups):
         sp, tp = ctx.path("k%d.script" % gi), ctx.path("k%d.ndjson" % gi)
         open(sp, "w").write("\n".join("\n".join(l) for l, _ in grp) + "\n")
         ex = exe_asan if gi % 3 == 2 else exe
-        rc, out, to = run_driver([ex, sp, tp], timeout=300)
+        # (a driver that hangs is given up after 150 s, twice; once a hang is established the remaining groups get 45 s and one attempt)
+        rc, out, to = run_driver([ex, sp, tp], timeout=150 if not hung else 45)
         if rc != 0 or to:
-            rc, out, to = run_driver([ex, sp, tp], timeout=300)
+            if not hung:
+                rc, out, to = run_driver([ex, sp, tp], timeout=150)
             if rc != 0 or to:
+                hung = hung or to
                 kind = "hang" if to else ("killed-by-signal" if rc < 0 else "memory-error" if "Sanitizer" in out else "crash")
                 ctx.violation("%s:%s" % (mode, kind), "socket scenarios: driver %s (rc=%s): %s" % (kind, rc, out[-400:]), [sp])
                 continue
